@@ -211,6 +211,71 @@ pub fn g_error_pattern(radius: Radius) -> BoxedStrategy<RsCase> {
         .boxed()
 }
 
+/// Error patterns whose *values* are solved for so that the syndromes satisfy linear relations a
+/// random pattern meets with probability 255^-m: the first m syndromes vanish, or the first
+/// syndromes follow the recurrence of fewer (v < w) errors for m steps (geometric progression for
+/// v = 1).  Such patterns drive the error-locator recursion through its singular branches (zero
+/// discrepancies, jumps over several orders, a start at a higher order).  Syndromes are linear in
+/// the error values, so m values are obtained from an m x m system, the other w - m are free.
+/// `Within`: w <= t errors in the block (must be corrected); `Beyond`: t < w <= k.
+pub fn g_constrained_values(radius: Radius) -> BoxedStrategy<RsCase> {
+    (any::<u16>(), any::<u16>(), g_blob(1558), any::<u16>(), any::<u16>(), any::<u16>(), any::<u16>(), g_blob16(200), any::<u16>())
+        .prop_map(move |(s, dk, bytes, bsel, wsel, fam, msel, raws, region)| {
+            let symi = pick_sym(s);
+            let sym = &SYMBOLS[symi];
+            let data = data_vector(sym, dk, &bytes);
+            let original = codeword_for(sym, &data);
+            let mut received = original.clone();
+            let (k, t) = (sym.ec_per_block(), sym.t());
+            let b = pick(bsel, sym.blocks);
+            let idx = gf::block_indices(sym, b);
+            let n = idx.len();
+            let w = match radius {
+                Radius::Within => [t, t, t.saturating_sub(1).max(1), 3.min(t), (t + 1) / 2 + 1][pick(wsel, 5)].min(t).max(1),
+                Radius::Beyond => (t + 1 + pick(wsel, (k - t).min(4))).min(n),
+            };
+            let mut it = raws.into_iter();
+            let pos = choose_positions(sym, b, w, pick(region, 4), &mut it);
+            let w = pos.len();
+            // locator of position p (index into the full vector) inside its block
+            let loc = |p: usize| {
+                let j = idx.iter().position(|q| *q == p).unwrap();
+                gf::pow(2, n - 1 - j)
+            };
+            let xs: Vec<u8> = pos.iter().map(|p| loc(*p)).collect();
+            // number of constraints, stratified: 1, 2, about w/2, w - 1
+            let m = if w <= 1 { 0 } else { [1usize, 2, w / 2, w - 1, w - 1, 3][pick(msel, 6)].min(w - 1).max(1) };
+            // constraint j (1-based) on the error values e: sum_i e_i * coef(i, j) = 0
+            let family = pick(fam, 4);
+            let v = match family { 0 => 0, 1 => 1, 2 => 2.min(w.saturating_sub(1)), _ => (w / 2).max(1).min(w.saturating_sub(1)) };
+            // C(x) = prod over v pseudo locators (x - y): recurrence polynomial of "v errors"; v = 0: C = 1 (plain zeros)
+            let ys: Vec<u8> = (0..v).map(|_| gf::pow(2, pick(it.next().unwrap_or(1), 255))).collect();
+            let cval = |x: u8| ys.iter().fold(1u8, |acc, y| gf::mul(acc, x ^ *y));
+            let coef = |i: usize, j: usize| gf::mul(gf::pow(xs[i], j), cval(xs[i]));
+            // free values for the last w - m positions
+            let mut e = vec![0u8; w];
+            for i in m..w {
+                e[i] = nonzero(it.next().unwrap_or(1));
+            }
+            if m > 0 {
+                let a: Vec<Vec<u8>> = (1..=m).map(|j| (0..m).map(|i| coef(i, j)).collect()).collect();
+                let rhs: Vec<u8> = (1..=m).map(|j| (m..w).fold(0u8, |acc, i| acc ^ gf::mul(e[i], coef(i, j)))).collect();
+                if let Some(sol) = gf::solve(&a, &rhs) {
+                    e[..m].copy_from_slice(&sol[..m]);
+                } else {
+                    for x in e.iter_mut().take(m) {
+                        *x = nonzero(it.next().unwrap_or(1));
+                    }
+                }
+            }
+            for (p, x) in pos.iter().zip(e.iter()) {
+                received[*p] ^= *x;
+            }
+            RsCase { sym: symi, original, received, nearest: None, stratum: if radius == Radius::Within { "constrained-values-within" } else { "constrained-values-beyond" } }
+        })
+        .boxed()
+}
+
 /// uniformly random received words (original = all-zero codeword)
 pub fn g_random_word() -> BoxedStrategy<RsCase> {
     (any::<u16>(), g_blob(2178))
